@@ -234,12 +234,8 @@ def step (ss : Sess) (line : String) : Sess × String :=
   | "parse" :: name :: tn :: td :: ws =>
     match findTab ss name, tn.toNat?, td.toNat?, parseInts ws with
     | some t, some tn, some td, some data =>
-      if CodeWrapper.supported t then
+      if CodeWrapper.supported t || CodeWrapper.supportedM t then
         match CodeWrapper.parse t ⟨tn, td⟩ data with
-        | .ok p => (ss, s!"ok bits={showNats p.bits} clean={showInts p.cleaned}")
-        | .error e => (ss, "err " ++ e.name)
-      else if Manchester.supportedM t then
-        match Manchester.parseM t ⟨tn, td⟩ data with
         | .ok p => (ss, s!"ok bits={showNats p.bits} clean={showInts p.cleaned}")
         | .error e => (ss, "err " ++ e.name)
       else (ss, "unsupported")
@@ -258,7 +254,7 @@ def step (ss : Sess) (line : String) : Sess × String :=
     | some (_, name, inst), some data =>
       match findTab ss name with
       | some t =>
-        if CodeWrapper.supported t && (t.repeatBursts.isEmpty || CodeWrapper.streamEnc t.repeatBursts == .general) then
+        if (CodeWrapper.supported t || CodeWrapper.supportedM t) && (t.repeatBursts.isEmpty || CodeWrapper.streamEnc t.repeatBursts == .general) then
           let r := Proto.baseDecode t inst data
           let ss' := { ss with insts := (iid, name, r.inst) :: ss.insts.filter (·.1 != iid) }
           let tail := s!" islast={r.isLast} stops={r.effects.length} held={match r.inst.last with | some c => showCodeV c | none => "-"}"
